@@ -1,5 +1,5 @@
 (* C02 — every JSON output row is valid JSON for its value in all styles. *)
-From Jawk Require Import Base F64 Json Printer Render PrinterProofs.
+From Jawk Require Import Base F64 Json Reader Stream Printer Render PrinterProofs Go GoProofs RoundTrip.
 
 (* every printed row is, by construction, the rendering of a well-formed spelling tree of the RFC 8259
    grammar whose value is exactly the value printed: in each style, with or without --utf8-strings.
@@ -38,3 +38,18 @@ Theorem C02_shape_pretty : forall (utf8 : bool) (v : json) (d : nat),
          (canon Pretty utf8 d v).
 Proof. exact pretty_ws. Qed.
 Print Assumptions C02_shape_pretty.
+
+(* composition with C01: jawk's own parser reads the printed rows back as exactly the values printed, in every
+   style, with either value of --utf8-strings *)
+Theorem C02_roundtrip : forall st utf8 vs, Forall (printable utf8) vs ->
+  values_of_bytes (concat (map (fun v => print_json st utf8 v ++ [10%N]) vs)) = (vs, 0%N).
+Proof. exact print_parse_roundtrip. Qed.
+Print Assumptions C02_roundtrip.
+
+(* feeding jawk's output back into jawk with the same (default) options reproduces it byte for byte *)
+Theorem C02_fixpoint : forall vs, Forall (printable false) vs ->
+  let out := concat (map (fun v => print_json OneLine false v ++ [10%N]) vs) in
+  let g := go default_cfg [(None, map EB out)] true in
+  g_result g = GOk /\ concat (map (fun e => match e with OOut b => b | OErr _ => [] end) (g_events g)) = out.
+Proof. exact go_fixpoint. Qed.
+Print Assumptions C02_fixpoint.
